@@ -21,8 +21,8 @@ def run(tier, seed):
         raise vlib.ModelError("negative control failed: pinned formula not rejected:\n" + out2[-2000:])
     rep.exhaustive = True
     wd = vlib.workdir("C17")
-    jobs = [dict(tag="rec_decast", src="rec_decast.cpp"),
-            dict(tag="rec_decast_asan", src="rec_decast.cpp", compiler="clang++", flags=["-fsanitize=address", "-fno-omit-frame-pointer", "-g"])]
+    jobs = [dict(tag="rec_decast", src="rec_decast.cpp", flags=["-std=c++14"]),
+            dict(tag="rec_decast_asan", src="rec_decast.cpp", compiler="clang++", flags=["-std=c++14", "-fsanitize=address", "-fno-omit-frame-pointer", "-g"])]
     res = vlib.build_many(jobs)
     for t, (p, log) in res.items():
         if p is None: raise vlib.BuildError({t: log})
@@ -30,7 +30,7 @@ def run(tier, seed):
     lines = []
     for c in cfgs:
         lines.append("%d %d %d %d %d onehot" % (c["N"], c["d"], c["k"], c["closed"], c["valid"]))
-    groups = ["SE2", "SO3"] if tier == "quick" else ["SE2", "SO3", "SE3"]
+    groups = ["SE2", "SO3", "B1"] if tier == "quick" else ["SE2", "SO3", "SE3", "B1"]     # B1 = Bundle<SE2, SO3, R3>
     for c in cfgs:
         if c["valid"] and (tier == "thorough" or (c["N"] <= 9 and c["k"] <= 2)):
             for g in groups:
